@@ -156,6 +156,12 @@ func newIsWorld(c *core.Ctx, g *gen.Gen, maxDepth int, withPerturb bool) *isWorl
 	for i := range gen.Errnos {
 		addTree(&gen.Node{Kind: "errno", N: []int{i}}, "sentinel")
 	}
+	// twins: fresh objects that are equivalent (same message, same type chain) to
+	// a sentinel but not identical to it
+	for _, i := range []int{0, 2, 3, 4, 6, 9} {
+		addTree(&gen.Node{Kind: "goerr", S: []string{gen.Sentinels[i].Error()}}, "sentinel-twin")
+	}
+	addTree(&gen.Node{Kind: "nofmtleaf", S: []string{gen.IsSentinel.Msg}}, "sentinel-twin")
 	addTree(g.Tree(1+c.R.Intn(3)), "other")
 	if withPerturb {
 		ps, ls := perturb(g, t)
